@@ -81,5 +81,6 @@ bool ops_module(Ctx &c, Toks const &t, std::string const &rest);
 bool ops_c18(Ctx &c, Toks const &t);
 bool ops_c15(Ctx &c, Toks const &t);
 bool ops_c11(Ctx &c, Toks const &t);
+bool ops_bias(Ctx &c, Toks const &t);
 
 #endif
